@@ -11,7 +11,7 @@ REQUIRED = {t: "oracle:C20.fresh-instance-empty oracle:C20.others-unchanged c20:
 
 def plan(tier, seed):
     if tier == "quick":
-        return [{"kind": "c20", "shard": s, "n": 350} for s in range(3)]
+        return [{"kind": "c20", "shard": s, "n": 1400} for s in range(4)]
     return [{"kind": "c20", "shard": s, "n": 7000} for s in range(14)]
 
 
